@@ -27,19 +27,19 @@ pub struct OAuth2UserParam {
 #[derive(Clone, Debug)]
 pub struct OAuth2UserMeta {
     pub user_name: String,
-    pub role: Arc<String>,
+    pub roles: Vec<Arc<String>>,
     pub namespace_privilege: Option<PrivilegeGroup<Arc<String>>>,
 }
 
 impl OAuth2UserMeta {
     pub fn new(
         user_name: String,
-        role: Arc<String>,
+        roles: Vec<Arc<String>>,
         namespace_privilege: Option<PrivilegeGroup<Arc<String>>>,
     ) -> Self {
         Self {
             user_name,
-            role,
+            roles,
             namespace_privilege,
         }
     }
